@@ -293,6 +293,28 @@ func (o *c19obs) Observe(ev *PEvent, ps *PState) (string, string) {
 				}
 				if len(ev.Blk.Literals) > bound {
 					class := "run-not-compressed"
+					if typ == "BUP" && len(ev.Blk.Literals) < o.eff.InputLen {
+						// recorded finding: BUP prefers the longest candidate;
+						// if that is an earlier separate run of the same byte
+						// the match ends before the block end and the rest,
+						// shorter than InputLen, cannot be matched any more
+						rs := ev.PreW
+						for rs > ev.PreOff && fed[rs-1] == c {
+							rs--
+						}
+						k := 0
+						for q := ev.PreOff; q < rs; q++ {
+							if fed[q] == c {
+								k++
+								if k >= o.eff.InputLen {
+									class = "bup-run-block-matched-against-earlier-run"
+									break
+								}
+							} else {
+								k = 0
+							}
+						}
+					}
 					if typ == "GSAP" {
 						// recorded finding: the suffix array neighbours of the
 						// positions of this run are positions of an earlier run
@@ -337,6 +359,24 @@ func init() {
 			"gsap-shadowed-run": {Cfg: gen.Cfg{Type: "GSAP", ShrinkSize: 1, BufferSize: 203, WindowSize: 3, BlockSize: 39, MinMatchLen: 3},
 				Family: "runs", Stream: append(append(append(append(bytes.Repeat([]byte{'d'}, 80), 0xe6), bytes.Repeat([]byte{'d'}, 49)...), '6'), bytes.Repeat([]byte{'d'}, 72)...),
 				Ops: []POp{{K: "write", A: 1, B: 0}, {K: "parse"}, {K: "parse"}, {K: "parse"}, {K: "parse"}, {K: "parse"}, {K: "parse"}}},
+			// a run longer than 64 KiB in a buffer beyond 64 KiB, parsed in
+			// blocks that also start in the last few hundred bytes of the run
+			// witnesses of repaired defects (BDHP stale long hash; BUP entry for
+			// position 0 / value 0 taken for an empty slot)
+			"bdhp-two-runs": {Cfg: gen.Cfg{Type: "BDHP", BufferSize: 128, WindowSize: 128, BlockSize: 32, InputLen1: 7, HashBits1: 8, InputLen2: 8, HashBits2: 12},
+				Family: "runs", Stream: append(append(bytes.Repeat([]byte{'a'}, 31), 'b'), bytes.Repeat([]byte{'a'}, 32)...),
+				Ops:    []POp{{K: "write", A: 1, B: 0}, {K: "parse"}, {K: "parse"}}},
+			"bup-zero-start": {Cfg: gen.Cfg{Type: "BUP", BufferSize: 128, WindowSize: 128, BlockSize: 32, InputLen: 2, HashBits: 1, BucketSize: 64},
+				Family: "runs", Stream: append([]byte{0, 0}, bytes.Repeat([]byte{'c'}, 62)...),
+				Ops:    []POp{{K: "write", A: 1, B: 0}, {K: "parse"}, {K: "parse"}}},
+			// reproducer of the recorded finding KF-C19-BUP
+			"bup-old-run": {Cfg: gen.Cfg{Type: "BUP", BufferSize: 128, WindowSize: 128, BlockSize: 32, InputLen: 3, HashBits: 8, BucketSize: 64},
+				Family: "runs", Stream: append(append(bytes.Repeat([]byte{'c'}, 30), 'x', 'y'), bytes.Repeat([]byte{'c'}, 32)...),
+				Ops:    []POp{{K: "write", A: 1, B: 0}, {K: "parse"}, {K: "parse"}}},
+			"osap-long-run": longRunCase("OSAP"),
+			"gsap-long-run": longRunCase("GSAP"),
+			"hp-long-run":   longRunCase("HP"),
+			"bup-long-run":  longRunCase("BUP"),
 		},
 		tweak: func(r *rand.Rand, pc *PCase, kind string) {
 			if r.Intn(3) != 0 {
@@ -358,7 +398,36 @@ func init() {
 				}
 			}
 			pc.Family = "run"
-			if pc.Cfg.BlockSize < 32 {
+			if r.Intn(2) == 0 {
+				// several separate runs of the same byte with short
+				// separators, run starts aligned to block starts
+				pc.Family = "multirun"
+				bs := pc.Cfg.BlockSize
+				if bs < 32 || bs > 200 {
+					bs = 32 + r.Intn(40)
+					pc.Cfg.BlockSize = bs
+				}
+				pos := 0
+				for pos < n {
+					l := bs*(1+r.Intn(3)) - r.Intn(4)
+					if r.Intn(3) == 0 {
+						l = 1 + r.Intn(3*bs)
+					}
+					for k := 0; k < l && pos < n; k++ {
+						pc.Stream[pos] = c
+						pos++
+					}
+					for k, sep := 0, 1+r.Intn(3); k < sep && pos < n; k++ {
+						pc.Stream[pos] = byte('x' + r.Intn(3))
+						pos++
+					}
+				}
+				if r.Intn(2) == 0 {
+					// one write of everything, then parse block by block
+					pc.Ops = append([]POp{{K: "write", A: 1, B: 0}}, pc.Ops...)
+				}
+			}
+			if pc.Cfg.BlockSize < 32 || pc.Cfg.BlockSize > 1<<20 {
 				pc.Cfg.BlockSize = 32 + r.Intn(40)
 			}
 			if pc.Cfg.BufferSize < pc.Cfg.BlockSize {
@@ -384,4 +453,27 @@ func init() {
 			return &c19obs{cr: commonReach{st: st}, st: st, eff: ps.Eff}
 		},
 	})
+}
+
+// longRunCase is a directed run-clause case: prefix + 0x00^70000 + suffix in
+// a buffer of 80000 bytes, parsed with blocks of 64 bytes up to the end.
+func longRunCase(typ string) PCase {
+	c := gen.Cfg{Type: typ, BufferSize: 80000, ShrinkSize: 100, WindowSize: 1 << 16, BlockSize: 64}
+	switch typ {
+	case "OSAP":
+		c.MinMatchLen, c.MaxMatchLen = 3, 273
+	case "GSAP":
+		c.MinMatchLen = 3
+	case "HP":
+		c.InputLen, c.HashBits = 4, 12
+	case "BUP":
+		c.InputLen, c.HashBits, c.BucketSize = 4, 8, 4
+	}
+	stream := append([]byte("start"), make([]byte, 70000)...)
+	stream = append(stream, []byte("the end")...)
+	ops := []POp{{K: "write", A: 1, B: 0}}
+	for i := 0; i < 70100/64+2; i++ {
+		ops = append(ops, POp{K: "parse"})
+	}
+	return PCase{Cfg: c, Family: "long-run", Stream: stream, Ops: ops}
 }
